@@ -62,6 +62,11 @@ func runTx(w *core.Worker, base string, prog string, env []string, name string) 
 // initial: table name → rows read from the initial files. Returns number of violations.
 func txJudge(w *core.Worker, p *txProc, dir string, r txRun, initial map[string][][]string, base core.Snap, variant string, env []string) int {
 	nv := 0
+	if r.res.Signal == 9 && !r.res.TimedOut {
+		// no termination of this check is a SIGKILL: the run was ended from outside (out of scope here, C10) and says nothing
+		w.Inconclusive(fmt.Sprintf("[%s] the process was ended by SIGKILL from outside the case", variant))
+		return 0
+	}
 	viol := func(sig, what string) {
 		nv++
 		w.Violation(sig, fmt.Sprintf("[%s] %s (exit %d signal %d, %d commits completed)", variant, what, r.res.Code, r.res.Signal, r.commits),
